@@ -140,6 +140,48 @@ def run(ctx):
             else:
                 H.violation("monkeytype.db.sqlite:SQLiteStore.add", "partial-batch:abort@%d:%d-of-%d" % (n, len(got), len(want)), "an interrupted batch insert left a partial batch",
                             {"abort_every_vm_steps": n, "outcome": outcome}, {"rows_after_reopen": len(got), "rows_same_connection": len(got_same)}, "0 or %d" % len(want))
+        # the same with a *step budget*: the handler is consulted after every VM step and keeps answering "abort" once n steps are used up,
+        # so the ROLLBACK that follows the failed insert is interrupted as well; the store is then used again (query, another batch) before looking
+        H.section("interrupted batch insert, abort persisting through the rollback", "progress handler consulted every VM step that aborts everything after n steps (insert and the rollback after it); then the budget is lifted, "
+                  "the same store runs a query and a further batch: the interrupted batch is entirely present or entirely absent, the later batch is present", "%d budgets" % (60 if not thorough else 300))
+
+        class Budget:
+            left = None
+
+            def __call__(self):
+                if self.left is None:
+                    return 0
+                self.left -= 1
+                return 1 if self.left < 0 else 0
+        for n in range(0, (60 if not thorough else 300)):
+            path = os.path.join(tmp, "g%d.sqlite3" % n)
+            st = SQLiteStore.make_store(path)
+            b = Budget()
+            st.conn.set_progress_handler(b, 1)
+            b.left = n
+            try:
+                st.add(batch)
+                outcome = "committed"
+            except sqlite3.OperationalError:
+                outcome = "aborted"
+            b.left = None
+            later_ok = True
+            try:
+                st.filter("m1", "zz")
+                st.add([trace("mX1", "star")])
+            except sqlite3.Error:
+                later_ok = False
+            st.conn.close()
+            re = SQLiteStore.make_store(path)
+            got = {(r.module, r.qualname, r.arg_types, r.return_type, r.yield_type) for r in re.filter("m1")}
+            later = {(r.module, r.qualname) for r in re.filter("mX1")}
+            re.conn.close()
+            if got in (set(), want) and (outcome == "committed") == (got == want) and later_ok and later == {("mX1", "star")}:
+                H.ok("budget@%d:%s" % (n, outcome), nontrivial=True, sample={"budget": n, "outcome": outcome, "rows": len(got)})
+            else:
+                H.violation("monkeytype.db.sqlite:SQLiteStore.add", "partial-batch:budget@%d:%d-of-%d:later=%s" % (n, len(got), len(want), later_ok and bool(later)),
+                            "a batch insert interrupted together with its rollback is later committed in part (or blocks the store)",
+                            {"abort_after_vm_steps": n, "outcome": outcome}, {"rows_after_reopen": len(got), "later_batch_present": bool(later), "later_ops_ok": later_ok}, "0 or %d rows; the later batch present" % len(want))
         H.section("interrupted large batch", "batches of 600 / 1800 distinct rows whose last row is rejected by a BEFORE INSERT trigger (RAISE(ABORT)), and the same batches aborted by the progress handler "
                   "late in the insert: afterwards (same connection, second connection, after reopen) none of the batch is present", "2 sizes x (trigger + 6 late abort points)")
         for size in (600, 1800):
